@@ -54,7 +54,39 @@ def run(p: Project, tier: str) -> Result:
         check_service_loop(p, w, r)
         check_grant_equiv(p, w, r)
         check_timers(p, w, r)
+        check_grant_wakes(p, w, r)
     return r
+
+
+def check_grant_wakes(p, w, r):
+    """R5: recording a request as granted and waking its requester are one step - on every path, each event appended to reservations_put /
+    reservations_get is succeeded exactly once in the same atomic segment, and no event is succeeded by a grant function without being recorded."""
+    r.rule('C04.R5', 'every grant (append to reservations_put / reservations_get) succeeds that very event once, in the same atomic segment', 16)
+    sites = {}
+    for root, ps in w.roots.items():
+        for pa in ps:
+            if pa.raises:
+                continue
+            evs = pa.events
+            for i, e in enumerate(evs):
+                if e.kind == 'op' and e.list in (RP, RG) and e.op in ('append', 'insert') and e.val is not None:
+                    key = site(e.fi, e.node, f'grant-wakes:{e.list}')
+                    rec = sites.setdefault(key, {'ok': True, 'e': e, 'pa': pa, 'why': ''})
+                    # the succeed of the same value inside the same atomic segment (between the surrounding yields)
+                    lo = next((j for j in range(i, -1, -1) if evs[j].kind == 'yield'), -1)
+                    hi = next((j for j in range(i, len(evs)) if evs[j].kind == 'yield'), len(evs))
+                    n = sum(1 for x in evs[lo + 1:hi] if x.kind == 'succeed' and x.value == e.val)
+                    if n != 1 and rec['ok']:
+                        rec.update(ok=False, pa=pa, why=f'the request is recorded in {e.list} but its event is succeeded {n} time(s) in that step: '
+                                                          + ('the requester is granted and never woken (it waits for ever while holding the reservation)' if n == 0
+                                                             else 'succeed() on an already triggered event raises'))
+    for key, rec in sorted(sites.items()):
+        e = rec['e']
+        r.analysed_functions.add(e.fi.key)
+        if rec['ok']:
+            r.ok('C04.R5', key, 'recorded and woken in one step on every path', src(e.fi.module), e.line)
+        else:
+            r.fail('C04.R5', key, rec['why'], src(e.fi.module), e.line, rec['pa'].describe())
 
 
 def grants_per_trigger(w):
